@@ -27,6 +27,7 @@ func init() {
 			{ID: "C06.5", Desc: "method/Range gate dominates every store access", Run: func(c *Ctx) { ruleGate(c, "C06.5") }, MinSites: 3},
 			{ID: "C06.6", Desc: "every store of an origin response is under a positive evaluator answer", Run: ruleC06_6, MinSites: 2},
 			{ID: "C06.7", Desc: "entry-write error gates the index write", Run: ruleC06_7, MinSites: 1},
+			{ID: "C06.8", Desc: "the evaluator receives the judged response's directives and the request's directives on every path", Run: func(c *Ctx) { ruleEvaluatorDirectives(c, "C06.8") }, MinSites: 2},
 		},
 	})
 }
